@@ -57,6 +57,7 @@ def _flat(e: ast.AST) -> List[str]:
 def run(ch: Checker) -> None:
     prog = ch.prog
     ce = ConstEval(prog)
+    ch.rule('C12.10', 'the default receive buffer sizes cover a whole TLS record (https upstreams are read with one recv() per readiness event; shared with C11.11)', 2)
     ch.rule('C12.1', 'port = URL port if given, else 80 for scheme http and 443 otherwise', 1)
     ch.rule('C12.2', 'initialize_upstream(text_(choice.hostname), port); upstream.wrap(text_(choice.hostname), ca_file=flags.ca_file) exactly under scheme == https', 2)
     ch.rule('C12.3', 'static route: the URL is random.choice(route[1]) of the route whose compiled route[0] matched text_(request.path); the route loop stops at the first match', 1)
@@ -247,6 +248,13 @@ def run(ch: Checker) -> None:
              'web layer matches %s, reverse proxy matches %s: the full request path on both sides' % (web_arg, sorted(rev_args)),
              'the web layer matches routes against %s but the reverse proxy against %s: a request admitted by the first can find no route in the second (no 404, no upstream, '
              'connection left hanging) or the other way round' % (web_arg, sorted(rev_args)))
+    # ---------------- C12.10 receive buffers vs TLS records
+    from .common import recvbuf_tls_check
+    recvbuf_tls_check(ch, 'C12.10')
+
+    # ---------------- C12.11/12 (shared)
+    ch.import_rules('C01', {'C01.2': 'C12.11', 'C01.3': 'C12.12'}, 'request body and upstream response cross the reverse proxy unmodified only if the connection buffer sends exactly what was queued')
+
     # ---------------- C12.9 (shared)
     ch.import_rules('C01', {'C01.10': 'C12.9'}, 'the upstream\'s response is relayed only if the upstream is read while the request is still being written to it')
 
